@@ -652,7 +652,7 @@ fn call_plain(ctx: &mut Ctx, entry: &'static str, b: &[u8], deprecated_alias: bo
         let r = if deprecated_alias { tls_parser(b) } else { parse_tls_plaintext(b) };
         let (out, v) = split(r);
         match v {
-            Some((rem, r)) => {
+            Some((rem, r)) => crate::guard::unmetered(|| {
                 let _ = format!("{:?}", r);
                 let mut sl = Slices::new();
                 visit::messages(&mut sl, &r.msg);
@@ -661,7 +661,7 @@ fn call_plain(ctx: &mut Ctx, entry: &'static str, b: &[u8], deprecated_alias: bo
                     msgs: r.msg.iter().map(val::msg_to_item).collect(),
                     slices: sl,
                 }
-            }
+            }),
             None => Plain { fr: Framed { out, ctype: 0, ver: 0, len: 0, payload: None, rem: None, nmsgs: 0 }, msgs: vec![], slices: vec![] },
         }
     })
@@ -707,7 +707,7 @@ fn check_many(ctx: &mut Ctx, b: &[u8]) {
         let sub = &b[off..];
         let r = ctx.call("parse_tls_plaintext", sub.len(), 0, || {
             let (out, v) = split(parse_tls_plaintext(sub));
-            (out, v.map(|(rem, r)| (sub.len() - rem.len(), r.hdr.record_type.0, r.hdr.version.0, r.hdr.len, r.msg.iter().map(val::msg_to_item).collect::<Vec<_>>())))
+            (out, v.map(|(rem, r)| crate::guard::unmetered(|| (sub.len() - rem.len(), r.hdr.record_type.0, r.hdr.version.0, r.hdr.len, r.msg.iter().map(val::msg_to_item).collect::<Vec<_>>()))))
         });
         match r {
             Some((out, Some((used, t, v, l, msgs)))) if out.is_ok() && used > 0 => {
@@ -724,10 +724,10 @@ fn check_many(ctx: &mut Ctx, b: &[u8]) {
         let (out, v) = split(tls_parser_many(b));
         (
             out,
-            v.map(|(rem, rs)| {
+            v.map(|(rem, rs)| crate::guard::unmetered(|| {
                 let _ = format!("{:?}", rs);
                 (rel(b, rem), rs.iter().map(|r| (r.hdr.record_type.0, r.hdr.version.0, r.hdr.len, r.msg.iter().map(val::msg_to_item).collect::<Vec<_>>())).collect::<Vec<_>>())
-            }),
+            })),
         )
     });
     let (out, v) = match many {
@@ -1050,12 +1050,12 @@ fn record_oracles(ctx: &mut Ctx, stream: &[u8], scn: &Scenario, l: &RecLayout, b
     let two = ctx.call("parse_tls_record_with_header", payload.len(), 0, || {
         let (out, v) = split(parse_tls_record_with_header(payload, &hdr));
         match v {
-            Some((rem, msgs)) => {
+            Some((rem, msgs)) => crate::guard::unmetered(|| {
                 let _ = format!("{:?}", msgs);
                 let mut sl = Slices::new();
                 visit::messages(&mut sl, &msgs);
                 (out, msgs.iter().map(val::msg_to_item).collect::<Vec<_>>(), Some(rel(payload, rem)), sl)
-            }
+            }),
             None => (out, vec![], None, vec![]),
         }
     });
